@@ -138,8 +138,8 @@ def run(names, jobs=8, timeout=3600):
         lockf.close()
 
 
-BATCH = 48   # harnesses per cargo-kani invocation: its driver keeps every harness's output in memory (a single
-             # invocation with ~300 harnesses grew past 30 GB RSS)
+BATCH = 100000   # harnesses per cargo-kani invocation.  One invocation: the driver's resident size (30-40 GB) did not
+                 # shrink with batches of 48, and every invocation pays the metadata load again
 
 
 def _run_locked(names, jobs, timeout):
